@@ -13,6 +13,8 @@ inductive Family where
   | daily | weekly | yearlyMonthly | monthlyNth | yearlyNth | yearlyBymonthNth | yearlyEaster | yearlyWeekno
   | monthlyWeekno | weeklyWeekno
   | hourly | hourlyByhour | minutely | minutelyByminute | minutelyByhour | minutelyByhm | secondly | secondlyByhm | secondlyBysecond
+  | dailyE | hourlyE | hourlyByhourE | minutelyE | minutelyByminuteE | minutelyByhourE | minutelyByhmE
+  | secondlyE | secondlyByhmE | secondlyBysecondE
   deriving Repr, DecidableEq, Inhabited
 
 def Family.name : Family → String
@@ -21,11 +23,18 @@ def Family.name : Family → String
   | .yearlyWeekno => "yearly_weekno" | .monthlyWeekno => "monthly_weekno" | .weeklyWeekno => "weekly_weekno" | .hourly => "hourly" | .hourlyByhour => "hourly_byhour"
   | .minutely => "minutely" | .minutelyByminute => "minutely_byminute" | .minutelyByhour => "minutely_byhour" | .minutelyByhm => "minutely_byhour_byminute" | .secondly => "secondly"
   | .secondlyByhm => "secondly_byhour_byminute" | .secondlyBysecond => "secondly_bysecond"
+  | .dailyE => "daily_easter" | .hourlyE => "hourly_easter" | .hourlyByhourE => "hourly_byhour_easter"
+  | .minutelyE => "minutely_easter" | .minutelyByminuteE => "minutely_byminute_easter"
+  | .minutelyByhourE => "minutely_byhour_easter" | .minutelyByhmE => "minutely_byhour_byminute_easter"
+  | .secondlyE => "secondly_easter" | .secondlyByhmE => "secondly_byhour_byminute_easter"
+  | .secondlyBysecondE => "secondly_bysecond_easter"
 
 def Family.all : List Family :=
   [.daily, .weekly, .yearlyMonthly, .monthlyNth, .yearlyNth, .yearlyBymonthNth, .yearlyEaster, .yearlyWeekno,
    .monthlyWeekno, .weeklyWeekno,
-   .hourly, .hourlyByhour, .minutely, .minutelyByminute, .minutelyByhour, .minutelyByhm, .secondly, .secondlyByhm, .secondlyBysecond]
+   .hourly, .hourlyByhour, .minutely, .minutelyByminute, .minutelyByhour, .minutelyByhm, .secondly, .secondlyByhm, .secondlyBysecond,
+   .dailyE, .hourlyE, .hourlyByhourE, .minutelyE, .minutelyByminuteE, .minutelyByhourE, .minutelyByhmE,
+   .secondlyE, .secondlyByhmE, .secondlyBysecondE]
 
 /-- the optional list is given, non-empty, and satisfies `P` -/
 def someWith {α} (o : Option (List α)) (P : List α → Prop) : Prop :=
@@ -116,6 +125,15 @@ def reachableMM (a : Args) : Prop :=
     listedO a.byminute ((a.dtstart.hh * 60 + a.dtstart.mm + (j : Int) * a.interval) % 60)) = true
 instance (a : Args) : Decidable (reachableMM a) := by unfold reachableMM; exact inferInstance
 
+/-- BYEASTER given, non-empty, on the complement of D-C01d -/
+def easterOk (a : Args) : Prop := someWith a.byeaster (fun el => ∀ o ∈ el, -80 ≤ o ∧ o ≤ 250)
+instance (a : Args) : Decidable (easterOk a) := by unfold easterOk; exact inferInstance
+
+/-- the common part of the BYEASTER-below-YEARLY families: INTERVAL ≥ 1, valid start, no zero in BYMONTHDAY, no BYWEEKNO,
+    BYEASTER −80..250 -/
+def ebaseOk (a : Args) : Prop := baseOk a ∧ a.byweekno = none ∧ easterOk a
+instance (a : Args) : Decidable (ebaseOk a) := by unfold ebaseOk; exact inferInstance
+
 /-- a BY list is absent or given and non-empty -/
 def optNonempty (o : Option (List Int)) : Prop := o = none ∨ someWith o (fun _ => True)
 instance (o : Option (List Int)) : Decidable (optNonempty o) := by unfold optNonempty; exact inferInstance
@@ -159,6 +177,21 @@ def SupportedBy (a : Args) : Family → Prop
   | .secondlyBysecond => a.freq = 6 ∧ baseOk a ∧ wArgOk a ∧ a.byeaster = none ∧ optNonempty a.byhour ∧
       optNonempty a.byminute ∧ a.bysecond ≠ none ∧ reachableSS a
 
+  | .dailyE => a.freq = 3 ∧ ebaseOk a
+  | .hourlyE => a.freq = 4 ∧ ebaseOk a ∧ a.byhour = none ∧ minutesOk a ∧ secondsOk a
+  | .hourlyByhourE => a.freq = 4 ∧ ebaseOk a ∧ someWith a.byhour (fun l => ∀ x ∈ l, 0 ≤ x ∧ x ≤ 23) ∧ minutesOk a ∧ secondsOk a
+  | .minutelyE => a.freq = 5 ∧ ebaseOk a ∧ a.byhour = none ∧ a.byminute = none ∧ secondsOk a
+  | .minutelyByminuteE => a.freq = 5 ∧ ebaseOk a ∧ a.byhour = none ∧
+      someWith a.byminute (fun l => ∀ x ∈ l, 0 ≤ x ∧ x ≤ 59) ∧ secondsOk a
+  | .minutelyByhourE => a.freq = 5 ∧ ebaseOk a ∧ someWith a.byhour (fun _ => True) ∧ a.byminute = none ∧ secondsOk a ∧
+      reachableHourM a
+  | .minutelyByhmE => a.freq = 5 ∧ ebaseOk a ∧ optNonempty a.byhour ∧ a.byminute ≠ none ∧ secondsOk a ∧ reachableMM a
+  | .secondlyE => a.freq = 6 ∧ ebaseOk a ∧ a.byhour = none ∧ a.byminute = none ∧ a.bysecond = none
+  | .secondlyByhmE => a.freq = 6 ∧ ebaseOk a ∧ optNonempty a.byhour ∧ optNonempty a.byminute ∧ a.bysecond = none ∧
+      reachableS a
+  | .secondlyBysecondE => a.freq = 6 ∧ ebaseOk a ∧ optNonempty a.byhour ∧ optNonempty a.byminute ∧ a.bysecond ≠ none ∧
+      reachableSS a
+
 instance (a : Args) (f : Family) : Decidable (SupportedBy a f) := by
   cases f <;> (unfold SupportedBy; exact inferInstance)
 
@@ -171,7 +204,9 @@ def Supported (a : Args) : Prop := ∃ f, SupportedBy a f
 /-- how many periods of the specification `n` turns of the generator's loop may correspond to -/
 def Family.periodsPerTurn : Family → Nat
   | .hourly => 24 | .hourlyByhour => 48 | .minutely => 1440 | .minutelyByminute => 1500 | .minutelyByhour => 2880 | .minutelyByhm => 2880 | .secondly => 86400
-  | .secondlyByhm => 172800 | .secondlyBysecond => 172800 | _ => 1
+  | .secondlyByhm => 172800 | .secondlyBysecond => 172800
+  | .hourlyE => 24 | .hourlyByhourE => 48 | .minutelyE => 1440 | .minutelyByminuteE => 1500 | .minutelyByhourE => 2880
+  | .minutelyByhmE => 2880 | .secondlyE => 86400 | .secondlyByhmE => 172800 | .secondlyBysecondE => 172800 | _ => 1
 
 /-- the first `n` turns stay inside datetime's range (for BYEASTER: inside 1583..4099) -/
 def inRange (a : Args) (f : Family) (n : Nat) : Prop :=
@@ -198,5 +233,27 @@ def inRange (a : Args) (f : Family) (n : Nat) : Prop :=
       (86400 * n + 1) * a.interval + 86399 < (Cal.maxOrdinal + 1) * 86400
   | .secondlyByhm | .secondlyBysecond => ((Spec.RRule.startOrd a * 24 + a.dtstart.hh) * 60 + a.dtstart.mm) * 60 + a.dtstart.ss +
       (172800 * n + 86400) * a.interval + 86399 < (Cal.maxOrdinal + 1) * 86400
+  | .dailyE => 1583 ≤ a.dtstart.y ∧ Spec.RRule.startOrd a + n * a.interval ≤ Cal.toOrdinal 4099 12 31
+  | .hourlyE => 1583 ≤ a.dtstart.y ∧
+      Spec.RRule.startOrd a * 24 + a.dtstart.hh + (24 * n + 1) * a.interval + 23 < (Cal.toOrdinal 4099 12 31 + 1) * 24
+  | .hourlyByhourE => 1583 ≤ a.dtstart.y ∧
+      Spec.RRule.startOrd a * 24 + a.dtstart.hh + (48 * n + 24) * a.interval + 23 < (Cal.toOrdinal 4099 12 31 + 1) * 24
+  | .minutelyE => 1583 ≤ a.dtstart.y ∧
+      (Spec.RRule.startOrd a * 24 + a.dtstart.hh) * 60 + a.dtstart.mm + (1440 * n + 1) * a.interval + 1439 < (Cal.toOrdinal 4099 12 31 + 1) * 1440
+  | .minutelyByminuteE => 1583 ≤ a.dtstart.y ∧
+      (Spec.RRule.startOrd a * 24 + a.dtstart.hh) * 60 + a.dtstart.mm + (1500 * n + 60) * a.interval + 1439 < (Cal.toOrdinal 4099 12 31 + 1) * 1440
+  | .minutelyByhourE | .minutelyByhmE => 1583 ≤ a.dtstart.y ∧
+      (Spec.RRule.startOrd a * 24 + a.dtstart.hh) * 60 + a.dtstart.mm + (2880 * n + 1440) * a.interval + 1439 < (Cal.toOrdinal 4099 12 31 + 1) * 1440
+  | .secondlyE => 1583 ≤ a.dtstart.y ∧ ((Spec.RRule.startOrd a * 24 + a.dtstart.hh) * 60 + a.dtstart.mm) * 60 + a.dtstart.ss +
+      (86400 * n + 1) * a.interval + 86399 < (Cal.toOrdinal 4099 12 31 + 1) * 86400
+  | .secondlyByhmE | .secondlyBysecondE => 1583 ≤ a.dtstart.y ∧
+      ((Spec.RRule.startOrd a * 24 + a.dtstart.hh) * 60 + a.dtstart.mm) * 60 + a.dtstart.ss +
+      (172800 * n + 86400) * a.interval + 86399 < (Cal.toOrdinal 4099 12 31 + 1) * 86400
+
+/-- the BYEASTER-below-YEARLY families -/
+def Family.isEasterSub : Family → Bool
+  | .dailyE | .hourlyE | .hourlyByhourE | .minutelyE | .minutelyByminuteE | .minutelyByhourE | .minutelyByhmE
+  | .secondlyE | .secondlyByhmE | .secondlyBysecondE => true
+  | _ => false
 
 end RRule
